@@ -13,22 +13,27 @@ from core import fbits_raw, fbits
 import solve_suite as ss
 import solve_oracles as so
 import gen_radius
+import gen_kernels
 
 MODULE = "DfolsVerif.Properties.C18"
 BUILD_TARGETS = ["DfolsVerif.Driver.RadiusDrv", "DfolsVerif.Driver.IterDrv"]
 THEOREMS = ["Dfols.C18.radius_src_eq", "Dfols.C18.applyOp_inv", "Dfols.C18.C18_radii", "Dfols.C18.C18_rho_nonincreasing",
-            "Dfols.C18.C18_delta_cap_partial", "Dfols.C18.C18_reduce_progress", "Dfols.C18.C18_no_stall"]
+            "Dfols.C18.C18_delta_cap_partial", "Dfols.C18.C18_reduce_progress", "Dfols.C18.C18_no_stall",
+            "Dfols.C18.C18_table_shape", "Dfols.C18.gen_reduceRho_eq", "Dfols.C18.gen_trUpdate_eq", "Dfols.C18.gen_geomDelta_eq",
+            "Dfols.C18.gen_safetyDelta_eq"]
 TRUSTED_EXTRA = [
     "radius theorems are exact arithmetic over the reals (rounding not covered); hypothesis 1/250 <= alpha1 <= 1 (the table accepts [0,1]: recorded)",
     "delta <= 1e10 proved for tau = 1 only (with a regulariser delta is divided by tau <= 1)",
-    "table shape / counters / best-objective monotonicity are checked on real diagnostic tables, not proved here",
+    "table shape / counters: proved for traces the DiagAcc acceptor accepts (real runs' events are fed to it); best-objective monotonicity and the column list are checked on real tables only",
     "AST translator harness/gen_radius.py (hashes of ast.unparse)",
+    "AST-to-Lean translator harness/gen_kernels.py (Python scalar subset -> RadOps terms; statements assigning no modelled state are dropped and listed in Gen/KernelFns.lean)",
 ]
 ALLOW = ("bounds", "scaling", "proj", "avg", "soft", "hard", "npt", "growing", "regression", "noise", "randinit")
 
 
 def pre_build(ctx):
     gen_radius.regenerate(ctx)
+    ctx.cov["translated_kernels"] = gen_kernels.regenerate(ctx)
 
 
 def tr_params(kw):
@@ -50,6 +55,12 @@ def mutate(rng, prob, kw, d):
     if rng.random() < 0.2:
         up["tr_radius.alpha1"] = float(rng.choice([0.05, 0.1, 0.5, 0.9]))
         up["tr_radius.alpha2"] = float(rng.choice([0.3, 0.5, 0.95]))
+    if up.get("restarts.use_restarts") and rng.random() < 0.5:
+        # the slow-progress route into a restart (table rows must still show a new run after it)
+        up["slow.max_slow_iters"] = int(rng.integers(1, 4))
+        up["slow.thresh_for_slow"] = float(rng.choice([0.1, 1.0, 10.0]))
+        up["slow.history_for_slow"] = int(rng.integers(1, 3))
+        d["slow"] = True
     if d.get("growing") and rng.random() < 0.3:
         up["growing.reset_delta"] = True
         if rng.random() < 0.5:
@@ -136,6 +147,47 @@ def correspondence(ctx):
             if nrej <= 3:
                 ctx.broke("correspondence:IterAcc-rejects-real-trace", {"seed": seed, "config": ss.describe(d), "lean": rep})
     ctx.cov["progress_acceptor"] = {"traces": len(ilines), "rejected": nrej, "longest_evaluation_free_streak": maxstreak}
+    # diagnostic-table acceptor: rows agree with the evaluations / points / runs counted from the events
+    dlines, dmeta = [], []
+    for (seed, prob, kw, d, t, fault) in metas:
+        toks, lastpt, mx = [], None, 2
+        up = kw.get("user_params", {}) or {}
+        if up.get("restarts.increase_npt"):
+            # documented: restarts may add interpolation points, up to restarts.max_npt (default (n+1)(n+2)/2)
+            mx = max(mx, int(up.get("restarts.max_npt", (prob["n"] + 1) * (prob["n"] + 2) // 2)))
+        for e in t.events:
+            if e[0] == "rst":
+                toks.append("b:%d:%d:%d" % (e[1], e[2], e[3]))
+                mx = max(mx, int(e[6]))
+                lastpt = None if e[1] == 0 else lastpt
+            elif e[0] == "obj":
+                toks.append("o1" if e[3] != lastpt else "o0")
+                lastpt = e[3]
+            elif e[0] == "sre" and e[1] == 0:
+                toks.append("k")
+            elif e[0] == "rend":
+                toks.append("e")
+            elif e[0] == "diag":
+                toks.append("w:%d:%d:%d:%d:%d" % (e[1], e[2], e[3], e[4], e[8]))
+            elif e[0] == "res":
+                toks.append("z:%d:%d:%d" % (e[1], e[2], e[3]))
+        if any(tk.startswith("w:") for tk in toks):
+            dlines.append("diag %d " % mx + " ".join(toks))
+            dmeta.append((seed, d, t))
+    dout = core.run_driver(dlines, main="IterMain.lean") if dlines else []
+    drej, drows = 0, 0
+    for (seed, d, t), rep in zip(dmeta, dout):
+        if rep.startswith("ok"):
+            nr = int(rep.split()[1].split("=")[1])
+            drows += nr
+            df = t.result.diagnostic_info if t.result is not None else None
+            if df is not None and len(df) != nr:
+                ctx.broke("correspondence:DiagAcc-row-count", {"seed": seed, "config": ss.describe(d), "lean_rows": nr, "table_rows": len(df)})
+        else:
+            drej += 1
+            if drej <= 3:
+                ctx.broke("correspondence:DiagAcc-rejects-real-trace", {"seed": seed, "config": ss.describe(d), "lean": rep})
+    ctx.cov["diag_acceptor"] = {"traces": len(dlines), "rejected": drej, "rows": drows}
     out = core.run_driver(lines, main="RadiusMain.lean") if lines else []
     mism = [(l, o, w, wh) for l, o, w, wh in zip(lines, out, want, where) if o != w]
     ctx.cov["radius_correspondence"] = {"updates_compared": n, "mismatches": len(mism)}
